@@ -18,6 +18,7 @@ EXPLANATION = (
     "the unmodified parameter by the strict fixed-length parser; (R7) no signature normaliser/DER/recoverable parser is called anywhere; (R8) from_str and "
     "Deserialize return only what decode returned and no other code constructs a record from caller bytes. Not decided: that the crypto libraries implement "
     "ECDSA/Ed25519 and reject high-S (library facts listed under assumptions)."
+    " Also re-uses C02's KEYS rule (strictly increasing keys: no pair can be collapsed before the signature check)."
 )
 TRUSTED = [
     "k256 0.13 verify_digest/verify_prehashed rejects high-S signatures; libsecp256k1 verify_ecdsa requires normalized S; Signature::try_from / from_compact accept exactly 64 bytes",
@@ -680,3 +681,15 @@ def run(ctx, report):
     verify_v4_rule(ctx, report)
     forbidden_rule(ctx, report)
     entry_rule(ctx, report)
+
+
+_own_run = run
+
+
+def run(ctx, report):
+    _own_run(ctx, report)
+    from common import Only
+    from rules import c02
+    # "over exactly the pairs the decoded record then reports": duplicate keys would be collapsed before the signature is checked
+    c02.run(ctx, Only(report, {"KEYS": "KEYS"}))
+
